@@ -15,9 +15,48 @@ scratch worktree of /repo HEAD (same effect as `git -C /repo apply` ... `git che
 """
 
 
+PRED = {
+    "C01": "Props.P_C01 (ObsEq pre/undo, post/redo; primitives under PrimPre) + TraceHist Walk",
+    "C02": "MCHist (AtTimeline, RetUndo/RetRedo, NoopAtEnds, Grows) + TraceHist Walk / Lock",
+    "C03": "Props.P_C03 (Forest, Conflicting => refused, Removable) + session invariant",
+    "C04": "Props.P_C04 (TidOK, Untouched frame clause) + session invariant",
+    "C05": "Props.P_C05 (LidOK, Untouched frame clause) + session invariant",
+    "C06": "Props.P_C06 + TraceStep.P_C06R (LookupOK, NoDupLookups, QueriesOK, NewIdsOK) + session-final queries",
+    "C07": "Props.P_C07 + TraceStep.P_C07R (SegOK, painted-array clauses, pixel query, bit-exact undo)",
+    "C08": "Props.P_C08 (AreaOK, PosOK recomputed as rationals; ShapeOK via from-scratch digests)",
+    "C09": "Props.P_C09 (IoUOK recomputed as rationals; incremental and bulk)",
+    "C10": "Props.P_C10 (RegistryOK, KeyError clause, reference values after enable, SameFeature, ManagedKey)",
+    "C11": "Props.P_C11 (FullEq(post, pre), no emission)",
+    "C12": "Import.ImportOK / TraceImport, GeffMap.MapOK / TraceGeffMap",
+    "C13": "Relabel.RelabelOK / TraceRelabel",
+    "C14": "TraceExport.RoundTrip",
+    "C15": "TraceExport.SubsetOK (Anc closure)",
+    "C16": "TraceExport.Unmodified",
+    "C17": "NameMap.MapOK (Partition, ExactKeys) / TraceNameMap",
+    "C18": "CandGraph.Inv_Edges / TraceCandGraph, TraceCandSeg (NodesOK, EdgesOK)",
+    "C19": "Labels.UniqueOK / TraceLabels, TrackLabels.RelabelOK / TraceTrackLabels",
+    "C20": "Props.P_C20 + TraceHist.WalkEmit",
+}
+
+
+def coverage_table():
+    import glob
+    import json
+    rows = ["| property | predicate(s) | design-level states / transitions | real records (non-trivial) | wall (quick) |",
+            "|---|---|---|---|---|"]
+    for f in sorted(glob.glob(os.path.join(ROOT, "evidence", "C*.json"))):
+        e = json.load(open(f))
+        c = e["coverage"]
+        rows.append(f"| {e['property_id']} | {PRED.get(e['property_id'], '')} | {c.get('states')} / {c.get('transitions')} | "
+                    f"{c.get('traces_validated_against_impl')} ({c.get('distinct_nontrivial')}) | {round(e['wall_s'])} s |")
+    return "\n".join(rows)
+
+
 def main():
     p = os.path.join(ROOT, "DESIGN.md")
     s = open(p).read()
+    s = re.sub(r"<!-- coverage-table-begin -->.*?<!-- coverage-table-end -->",
+               "<!-- coverage-table-begin -->\n" + coverage_table() + "\n<!-- coverage-table-end -->", s, flags=re.S)
     table = seed_report.table()
     s = re.sub(r"<!-- seeded-table-begin -->.*?<!-- seeded-table-end -->",
                "<!-- seeded-table-begin -->\n" + INTRO + table + "\n<!-- seeded-table-end -->", s, flags=re.S)
